@@ -21,6 +21,7 @@ mod p12;
 mod p13;
 mod p14;
 mod p15;
+mod fz;
 mod p16;
 mod p17;
 mod p18;
@@ -180,6 +181,11 @@ fn main() {
             let out = arg_val(&args, "--out").unwrap_or_else(|| "/verif/work/c14_cases.jsonl".into());
             let meta = p14::generate(seed, tier, count, &out).expect("generate");
             println!("{meta}");
+        }
+        "fuzzseeds" => {
+            let out = arg_val(&args, "--out").unwrap_or_else(|| "/verif/work/fuzzseeds".into());
+            let n = fz::write_seeds(&out).expect("write seeds");
+            println!("{n}");
         }
         "replay" => {
             let path = args[2].clone();
